@@ -12,7 +12,7 @@ import (
 )
 
 func init() {
-	register(&Rule{ID: "E-SCOPE-THREAD", Props: []string{"C19", "C02", "C01", "C18", "C17"}, Floor: 54,
+	register(&Rule{ID: "E-SCOPE-THREAD", Props: []string{"C19", "C02", "C01", "C18", "C17", "C13"}, Floor: 54,
 		Doc: "every argument of type *variableScope in the evaluator is the enclosing function's own scope parameter, except the single child scope created by the let case, which is passed only to the evaluation of the let body; bindings are evaluated with the outer scope and the current node; Evaluate starts with the nil scope; and the current-node argument of the let evaluations is the enclosing current node",
 		Run: ruleEScopeThread})
 	register(&Rule{ID: "E-SCOPE-CHAIN", Props: []string{"C19", "C01", "C08", "C18", "C03", "C09"}, Floor: 1,
@@ -60,6 +60,7 @@ func ruleEScopeThread(p *Program, r *Reporter) {
 		}
 		return false
 	}
+	entryFns := map[*ssa.Function]bool{}
 	for _, fn := range p.ReachFuncs(p.Eval) {
 		name := p.FuncName(fn)
 		var scopeParam *ssa.Parameter
@@ -98,6 +99,7 @@ func ruleEScopeThread(p *Program, r *Reporter) {
 					case *ssa.Const:
 						if fn.Parent() == nil && fn.Signature.Recv() == nil && scopeParam == nil && callee == d.evalFn {
 							entryNil++
+							entryFns[fn] = true
 							r.OK(in.Pos(), key, "top-level evaluation starts with the empty (nil) scope")
 						} else {
 							if !byInterpretation(fn, in, callee, key) {
@@ -153,6 +155,24 @@ func ruleEScopeThread(p *Program, r *Reporter) {
 	}
 	if entryNil == 0 {
 		r.Bad(token.NoPos, "entry scope", "no top-level call of the dispatcher with the nil scope found")
+	}
+	// who may call the entry point: an evaluation in progress never restarts from the package entry (that would replace the
+	// document root by the current value and drop every binding of the enclosing let expressions)
+	for _, fn := range p.ReachFuncs(p.Eval) {
+		if entryFns[fn] {
+			continue
+		}
+		for _, b := range fn.Blocks {
+			for _, in := range b.Instrs {
+				ci, ok := in.(ssa.CallInstruction)
+				if !ok {
+					continue
+				}
+				if callee := calleeOf(ci.Common()); callee != nil && entryFns[callee] {
+					r.Bad(instrPos(in), fmt.Sprintf("%s restarts evaluation", p.FuncName(fn)), "an evaluation in progress calls the package entry point "+callee.Name()+": the sub-expression is evaluated with its operand as the document root and with no variable bound, so $ and let-variables inside it mean something else (or nothing)")
+				}
+			}
+		}
 	}
 	// the current value of a recursive evaluation is never the document root (only `$` yields the root, by returning it)
 	for _, fn := range p.ReachFuncs(p.Eval) {
